@@ -251,7 +251,7 @@ def ext_records(ctx, n_q, n_t, cases=None):
 
 def run_C02(ctx):
     V.build()
-    cases, usable, skipped, panics, refused = ext_records(ctx, 90, 150)
+    cases, usable, skipped, panics, refused = ext_records(ctx, 90, 110)
     verdicts = V.tlc_validate(ctx, "TraceSem", usable, {"VERIF_CLCAP": 9 if ctx.quick() else 10})
     stats, violations = V.collect(verdicts, usable, "C02")
     for v in violations:
@@ -383,8 +383,8 @@ def run_C19(ctx):
         raise V.ToolError("design check Decompose.tla failed")
     # every flag combination for every task (the quick tiers of C02/C03 use subsets)
     orig_quick = ctx.tier
-    s_cases, s_usable, s_skipped, s_panics = strong_records(ctx, 45, 50)
-    e_cases, e_usable, e_skipped, e_panics, refused = ext_records(ctx, 45, 60)
+    s_cases, s_usable, s_skipped, s_panics = strong_records(ctx, 45, 45)
+    e_cases, e_usable, e_skipped, e_panics, refused = ext_records(ctx, 45, 50)
     hc = [dict(h, id=f"c19h{i}", task="external", flagsets=ext_flagsets() + ext_flagsets("forward")) for i, h in enumerate(C19_HAND)]
     _, h_usable, _, h_panics, _ = ext_records(ctx, 0, 0, cases=hc)
     e_panics = e_panics + h_panics
